@@ -179,6 +179,19 @@ pub fn generate(seed: u64, scale: usize) -> Cases {
     }
     cases.push("empty", case(&mut r, &[], false));
     cases.push("empty", case(&mut r, &[], true));
+    // nothing above (0, ""): only negative seqs, the smallest seq, seq 0 with an empty value - through both APIs
+    let low: Vec<Vec<(i64, Vec<u8>)>> = vec![
+        vec![(-1, b"x".to_vec())],
+        vec![(i64::MIN, b"x".to_vec())],
+        vec![(0, b"".to_vec())],
+        vec![(-3, b"a".to_vec()), (-1, b"b".to_vec()), (-2, b"c".to_vec())],
+        vec![(0, b"".to_vec()), (-5, b"zz".to_vec()), (0, b"".to_vec())],
+    ];
+    for p in low.iter() {
+        for a in [false, true] {
+            cases.push("nothing_above_zero", case(&mut r, p, a));
+        }
+    }
     // seq patterns with gaps, duplicates and value ties; all permutations of the small ones
     let patterns: Vec<Vec<(i64, Vec<u8>)>> = vec![
         vec![(5, b"x".to_vec())],
